@@ -133,6 +133,8 @@ enum Role {
     Redactor,
     /// a Redactor that compacts what the receiver can re-derive (cv_net, cmx, note ciphertext -> memo plaintext)
     Compactor,
+    /// a Redactor that removes the shielded anchors (what a party that must not learn them is sent)
+    AnchorRedactor,
 }
 
 struct Template {
@@ -365,6 +367,7 @@ fn build_shielded_v5(variant: u64, prove: bool) -> Result<Template, Violation> {
     let required = roles.iter().map(|(n, _)| n.clone()).collect();
     std_roles(&mut roles);
     roles.push(("compactor".into(), Role::Compactor));
+    roles.push(("anchorRedactor".into(), Role::AnchorRedactor));
     let other_tx = if prove { build_shielded_v5(variant + 1, false).ok().map(|t| t.base) } else { None };
     Ok(Template { name: "v5_t+sapling+orchard", base, txid0, roles, required, sapling: true, t_keys: vec![tk], sapling_ask: Some(extsk.expsk.ask.clone()), orchard_ask: Some(oask), other_tx, earlier: vec![creator, fin_bytes] })
 }
@@ -411,6 +414,7 @@ fn build_shielded_v6(variant: u64, prove: bool) -> Result<Template, Violation> {
     let required = roles.iter().map(|(n, _)| n.clone()).collect();
     std_roles(&mut roles);
     roles.push(("compactor".into(), Role::Compactor));
+    roles.push(("anchorRedactor".into(), Role::AnchorRedactor));
     let other_tx = if prove { build_shielded_v6(variant + 1, false).ok().map(|t| t.base) } else { None };
     Ok(Template { name: "v6_t+ironwood", base, txid0, roles, required, sapling: false, t_keys: vec![tk], sapling_ask: None, orchard_ask: Some(oask), other_tx, earlier: vec![creator] })
 }
@@ -491,6 +495,11 @@ impl Template {
                     .redact_orchard_with(|mut r| r.compact_resolvable_fields())
                     .redact_ironwood_with(|mut r| r.compact_resolvable_fields())
                     .finish()),
+                Role::AnchorRedactor => Ok(Redactor::new(p)
+                    .redact_sapling_with(|mut r| r.clear_anchor())
+                    .redact_orchard_with(|mut r| r.clear_anchor())
+                    .redact_ironwood_with(|mut r| r.clear_anchor())
+                    .finish()),
                 Role::Proved(_) => unreachable!(),
             }
         });
@@ -516,6 +525,14 @@ impl Template {
                             same_txid(&r, &self.txid0, "Redactor(compact)+resolve_fields")?;
                             ctx.probe("compacted_copy_resolved");
                         }
+                    }
+                } else if matches!(role, Role::AnchorRedactor) {
+                    // without its anchors a v5 copy implies no identifier at all (the anchors are part of it); it may never
+                    // imply a *different* one
+                    match txid_of(&q) {
+                        Ok(t) if t != self.txid0 => return Err(Violation::new("txid_invariant", format!("after the anchors were redacted the copy implies txid {} instead of {} (or none)", hex::encode(&t[..6]), hex::encode(&self.txid0[..6])))),
+                        Ok(_) => ctx.probe("anchorless_copy_still_identified"),
+                        Err(_) => ctx.probe("anchorless_copy_implies_no_identifier"),
                     }
                 } else {
                     same_txid(&q, &self.txid0, name)?;
@@ -624,7 +641,7 @@ impl PcztSim {
                             }
                             ctx.time("messages", 1);
                             ctx.shape(&format!("d:{name}"));
-                            if !matches!(role, Role::Redactor) && !tainted {
+                            if !matches!(role, Role::Redactor | Role::AnchorRedactor) && !tainted {
                                 honest_replies.push(reply.clone());
                                 labels.entry(reply.clone()).or_insert_with(|| format!("{name}{}", if stale { "(on a stale copy)" } else { "" }));
                                 honest_roles.insert(name.clone());
